@@ -12,4 +12,5 @@ Definition bp : bparams := {|
   b_mincmp := lit_bloom_min_cmp; b_minset := lit_bloom_min_set;
   b_grotr := lit_bloom_gen_rotr; b_grotl := lit_bloom_gen_rotl;
   b_ckmax := lit_bloom_has_kmax;
-  b_crotr := lit_bloom_has_rotr; b_crotl := lit_bloom_has_rotl |}.
+  b_crotr := lit_bloom_has_rotr; b_crotl := lit_bloom_has_rotl;
+  b_maxbits := flt_maxBloomBits; b_probebits := flt_bloomProbeBits |}.
